@@ -235,6 +235,7 @@ pub fn def() -> PropDef {
             part("onoff", 4000, 80_000, |ctx| strat(ctx, false), test_onoff),
             part("stats", 1500, 30_000, |ctx| strat(ctx, true), test_stats),
             part("rules", 600, 12_000, |ctx| strat(ctx, true), super::c01_rules::test_rules),
+            part("rules-synth", 20_000, 400_000, super::c01_rules::synth_strategy, super::c01_rules::test_synth),
         ],
     }
 }
